@@ -15,4 +15,14 @@ Theorem C18_quantile_matches_numpy :
     flox_quantile skipna qn qd groups nans = spec_quantile skipna qn qd groups nans.
 Proof. exact flox_quantile_correct. Qed.
 
+(* a vector of q adds ONE leading axis whose i-th row is NumPy's quantile for the i-th requested q - in the order given,
+   whatever that order is (unsorted, repeated, including 0 and 1); a scalar q is the one-row case without the axis *)
+Theorem C18_vector_q_rows_in_the_order_given :
+  forall skipna qs groups nans,
+    Forall (fun q => 0 < snd q /\ 0 <= fst q <= snd q) qs -> length groups = length nans ->
+    flox_quantile_vec skipna qs groups nans = spec_quantile_vec skipna qs groups nans
+    /\ length (flox_quantile_vec skipna qs groups nans) = length qs.
+Proof. exact quantile_vec_correct. Qed.
+
 Print Assumptions C18_quantile_matches_numpy.
+Print Assumptions C18_vector_q_rows_in_the_order_given.
